@@ -11,9 +11,11 @@ from . import terms as T
 from . import ops, ops_move  # noqa
 
 
-def ev(t, memo=None):
-    """numeric value of a closed term (arith, ite, comparisons, expf/logf/atanf/tanf/sinf/cosf, memoised sqrt constants)"""
+def ev(t, memo=None, env=None):
+    """numeric value of a term (arith, ite, comparisons, expf/logf/atanf/tanf/sinf/cosf, memoised sqrt constants); env: symbol name -> value"""
     memo = {} if memo is None else memo
+    if env is not None:
+        return _ev_env(t, memo, env)
     k = t.get_id()
     if k in memo: return memo[k]
     t = z3.simplify(t) if False else t
@@ -55,11 +57,25 @@ def ev(t, memo=None):
         elif dk == z3.Z3_OP_UNINTERPRETED:
             if name == "PI": r = math.pi
             elif t.get_id() in T.SQRT_DEFS: r = math.sqrt(ev(T.SQRT_DEFS[t.get_id()][1], memo))
+            elif _ENV is not None and name in _ENV: r = _ENV[name]
             else: raise ValueError("free symbol " + name)
         else:
             raise ValueError("cannot evaluate kind " + str(dk) + " " + name)
     memo[k] = r
     return r
+
+
+def _ev_env(t, memo, env):
+    global _ENV
+    old = _ENV
+    _ENV = env
+    try:
+        return ev(t, memo)
+    finally:
+        _ENV = old
+
+
+_ENV = None
 
 
 def sym(t):
@@ -174,9 +190,65 @@ def run():
     return bad, skipped
 
 
-if __name__ == "__main__":
+def main():
     bad, skipped = run()
     for n, m in skipped: print("SKIPPED (op model raises / unsupported):", n, m)
     for n, m in bad: print("MISMATCH:", n, m)
     print(f"selftest_ext: {len(CASES)} cases, {len(bad)} mismatches, {len(skipped)} unsupported")
-    sys.exit(1 if bad else 0)
+    dbad = run_diff()
+    for b in dbad: print("MISMATCH (differentiator):", b)
+    print(f"selftest_ext: differentiator / normaliser on 14 term families, {len(dbad)} mismatches")
+    sys.exit(1 if (bad or dbad) else 0)
+
+
+# ------------------------------------------------------------------------------------------------
+# differentiator and log-linear normaliser (trusted base): random terms, derivative term against central finite differences
+# ------------------------------------------------------------------------------------------------
+def _diff_cases():
+    from .ops import s_exp, s_log, s_sqrt, s_softplus, s_sigmoid, s_tanh, s_atan
+    x, y = z3.Real("dx"), z3.Real("dy")
+    sq = lambda t: T.mul(t, t)
+    cases = {
+        "poly": T.add(T.mul(rv(3), sq(x)), T.mul(x, y)),
+        "ratio": T.div(T.add(x, rv(1)), T.add(sq(x), T.add(sq(y), rv(1)))),
+        "exp": s_exp(T.mul(rv(2), x)), "log": s_log(T.add(sq(x), rv(1))), "sqrt": s_sqrt(T.add(sq(x), rv(2))),
+        "softplus": s_softplus(T.sub(x, y)), "softplus_beta": s_softplus(x, rv(2)), "sigmoid": s_sigmoid(T.mul(x, y)), "tanh": s_tanh(x), "atan": s_atan(T.mul(rv(3), x)),
+        "ite": z3.If(x > y, sq(x), T.mul(rv(2), x)), "nested": s_log(T.add(rv(1), s_exp(T.neg(sq(x))))),
+        "rq_like": T.div(T.mul(sq(x), T.add(y, rv(2))), T.add(rv(1), T.mul(x, T.sub(rv(1), x)))),
+        "loglin": T.sub(T.mul(rv(2), s_log(T.add(x, rv(3)))), s_log(T.add(sq(y), rv(1)))),
+    }
+    return x, y, cases
+
+
+def run_diff():
+    import random
+    bad = []
+    old = Ctx.cur
+    Ctx.cur = Ctx()
+    try:
+        x, y, cases = _diff_cases()
+        rnd = random.Random(3)
+        for name, t in cases.items():
+            d = T.diff(t, x)
+            for _ in range(4):
+                xv, yv = rnd.uniform(-0.9, 0.9), rnd.uniform(-0.9, 0.9)
+                if name == "ite" and abs(xv - yv) < 0.05: continue
+                at = lambda term, xx: ev(term, {}, {"dx": xx, "dy": yv})
+                h = 1e-6
+                fd = (at(t, xv + h) - at(t, xv - h)) / (2 * h)
+                got = at(d, xv)
+                if abs(fd - got) > 1e-5 * (1 + abs(fd)):
+                    bad.append((name, xv, yv, got, fd))
+            if name == "loglin":
+                rest, numr, den = T.exp_of_loglin(t)
+                xv, yv = 0.3, -0.4
+                at = lambda term: ev(term, {}, {"dx": xv, "dy": yv})
+                if abs(math.exp(at(t)) - math.exp(at(rest)) * at(numr) / at(den)) > 1e-9:
+                    bad.append(("exp_of_loglin", xv, yv, math.exp(at(t)), math.exp(at(rest)) * at(numr) / at(den)))
+    finally:
+        Ctx.cur = old
+    return bad
+
+
+if __name__ == "__main__":
+    main()
